@@ -14,7 +14,9 @@ pub mod macros;
 pub mod state;
 pub mod vstore;
 
+pub mod oracle;
 pub mod c03;
+pub mod c04;
 pub mod c05;
 pub mod c09;
 pub mod c14;
